@@ -93,6 +93,16 @@ CLAIMED.update({
          LEDGER_NOTE, "5 C43"),
 })
 
+TRANSPORT_NOTE = "Sampled, not exhaustive: seeds x payload shapes x corruption kinds. Only notarized V1/V2 user transactions travel; partial-transaction and ledger payloads are not generated. Nothing is executed. Blind corruption mostly dies at decoding; the tampering relay and signature moves reach the validator."
+CLAIMED.update({
+ "C32": ("exploration", "deterministic simulation with fault injection on a simulated transport: valid signed V1/V2 payloads are delivered clean, duplicated, bit-flipped, truncated, extended, spliced or changed by a tampering relay (one field, re-encoded, not re-signed); history oracle: hash -> content maps stay functions, re-encode equals arrived bytes, tampered part changes its own and every enclosing hash",
+         "Over every payload the node managed to prepare in a run: intent hash, signed-intent hash and notarized hash each map to one content; a prepared payload re-encodes to the arrived bytes (no trailing / non-canonical form accepted); a single-field change inside the intent / a subintent / the signatures / the notary signature changes exactly the hashes that enclose it.",
+         TRANSPORT_NOTE, "5 C32"),
+ "C33": ("exploration", "deterministic simulation with fault injection on a simulated transport: the simulator records which key signed which intent; corrupted, tampered, signature-swapped and duplicated-signer payloads are validated by the real TransactionValidator; oracle: accepted => same intent hash and signer badge sets as the original that was actually signed",
+         "Every payload accepted by the validator yields, per intent, exactly the signer badges of the keys that signed that intent (+ notary iff declared signatory); a payload changed in transit is rejected or carries the original's intent hash and signer sets; clean payloads are always accepted; neither prepare nor validate panics on corrupted bytes.",
+         TRANSPORT_NOTE, "5 C33"),
+})
+
 PURE = "pure function of one input value: no schedule, clock, I/O, fault or history for a simulator to own (DESIGN section 6)"
 NOT_APPLICABLE = {
  "C16": "key mapping is a pure bijection on keys; " + PURE,
